@@ -28,7 +28,21 @@ pub fn check_sizes(report: &mut Report, log: &[Wire], nodes: &[SocketAddr], info
         let mut sig = "oversize-other".to_owned();
         let mut what = "datagram".to_owned();
         if let Ok(k) = Krpc::parse(&w.data) {
+            // the query this reply answers: the latest datagram delivered to the node from the
+            // reply's destination with the same transaction id
+            let answered: Option<String> = log
+                .iter()
+                .filter(|d| d.ev == Ev::Deliver && d.dst == w.src && d.src == w.dst && d.t <= w.t)
+                .rev()
+                .filter_map(|d| Krpc::parse(&d.data).ok())
+                .find(|q| q.is_query() && q.t == k.t)
+                .and_then(|q| q.method().map(|m| m.to_owned()));
             match &k.body {
+                Body::Reply(r) if !r.values.is_empty() && answered.as_deref().map(|m| m != "get_peers").unwrap_or(false) => {
+                    // values in an answer to something that is not a get_peers query: never the known finding
+                    what = format!("reply to a {} query carrying {} values", answered.as_deref().unwrap_or("?"), r.values.len());
+                    sig = "oversize-reply".to_owned();
+                }
                 Body::Reply(r) if !r.values.is_empty() => {
                     let values_bytes: usize = r
                         .values
